@@ -604,6 +604,33 @@ def explore_eq(ctx):
                 note("distinguishes multiset", "trees whose subcomponent multisets differ compare "
                      f"equal (a==b: {r1}, b==a: {r2})", witness=f"{lab(l)} vs {lab(r)}")
                 break
+        # symmetry also across *representations* of a value: the same date held as a single
+        # value object, as a one-element list object, as a Python list of value objects
+        from .absint import DT
+        d1 = DT("utc", 5, {"d": 1})
+        vddd, vlist, vtext = (model.cls(q) for q in ("prop.vDDDTypes", "prop.vDDDLists", "prop.vText"))
+        reps = {
+            "vDDDTypes(d)": lambda: it.instantiate(vddd, [d1], {}),
+            "vDDDLists([d])": lambda: it.instantiate(vlist, [[d1]], {}),
+            "[vDDDTypes(d)]": lambda: [it.instantiate(vddd, [d1], {})],
+            "vText('x')": lambda: it.instantiate(vtext, ["x"], {}),
+            "'x'": lambda: "x",
+        }
+        names = list(reps)
+        for i_, a_ in enumerate(names):
+            for b_ in names[i_ + 1:]:
+                n += 1
+                ea, eb = leaf("cal.Event", []), leaf("cal.Event", [])
+                ea.items["RDATE"], eb.items["RDATE"] = reps[a_](), reps[b_]()
+                try:
+                    r1, r2 = _eq(it, ea, eb), _eq(it, eb, ea)
+                except AbsRaise as e:
+                    note("total", f"comparing components holding {a_} and {b_} raises {e.cls_name}",
+                         left=a_, right=b_)
+                    continue
+                if r1 != r2:
+                    note("symmetric", f"equality is not symmetric when one tree holds the value as {a_} and "
+                         f"the other as {b_} (a==b: {r1}, b==a: {r2})", left=a_, right=b_)
     except Unsupported as e:
         raise AnalysisError(f"__eq__ leaves the abstract interface: {e}")
     finally:
